@@ -394,13 +394,19 @@ Definition op_in_scope (s : state) (o : op) : Prop :=
   | _ => True
   end.
 
+Lemma sorted_post : forall c r, SortedS (fst r) -> SortedS (fst (post c r)).
+Proof.
+  intros c r H. unfold post. destruct (fx_xcache c); auto. simpl.
+  unfold SortedS, inval_all. simpl. rewrite keys_map; auto. intro e. reflexivity.
+Qed.
+
 Theorem sorted_step : forall c s o, SortedS s -> op_in_scope s o -> SortedS (fst (step c s o)).
 Proof.
   intros c s o HS HO. destruct o.
-  - unfold step. destruct (affixed s); [simpl; auto|]. destruct (has_dot nm); [simpl; auto|]. apply sorted_add; auto.
-  - unfold step. destruct (affixed s); [simpl; auto|]. destruct (has_dot nm); [simpl; auto|]. apply sorted_alias; auto.
-  - unfold step. destruct (affixed s); [simpl; auto|]. apply sorted_del; auto.
-  - unfold step. destruct (affixed s); [simpl; auto|]. destruct (has_dot new); [simpl; auto|]. apply sorted_ren; auto.
+  - unfold step. destruct (affixed s); [simpl; auto|]. destruct (has_dot nm); [simpl; auto|]. apply sorted_post. apply sorted_add; auto.
+  - unfold step. destruct (affixed s); [simpl; auto|]. destruct (has_dot nm); [simpl; auto|]. apply sorted_post. apply sorted_alias; auto.
+  - unfold step. destruct (affixed s); [simpl; auto|]. apply sorted_post. apply sorted_del; auto.
+  - unfold step. destruct (affixed s); [simpl; auto|]. destruct (has_dot new); [simpl; auto|]. apply sorted_post. apply sorted_ren; auto.
   - unfold step. destruct (affixed s); [simpl; auto|]. apply sorted_move; auto.
   - unfold step. destruct (affixed s); [simpl; auto|]. apply sorted_hide; auto.
   - simpl in HO. tauto.
